@@ -222,10 +222,12 @@ def _event_obj(repo):
     return o
 
 
-def run_handler(repo, rel, cn, method, args, fields=None, props=None, cell=None, domains=None):
+def run_handler(repo, rel, cn, method, args, fields=None, props=None, cell=None, domains=None, extra_hooks=None):
     runner = LayerRunner(repo, props or {})
     cls = repo.cls(rel, cn)
-    it = Interp(repo, cell if cell is not None else {}, domains if domains is not None else {}, hooks=runner.hooks())
+    hooks = runner.hooks()
+    hooks.update(extra_hooks or {})
+    it = Interp(repo, cell if cell is not None else {}, domains if domains is not None else {}, hooks=hooks)
     it.layer_base = runner.base
     layer = runner.make_layer(it, cls)
     for k, v in (fields or {}).items():
